@@ -7,9 +7,9 @@ PROOF, TV = "proof", "translation_validation"
 
 # id: (category, technique, text, note)
 CLAIMS = {
- "C01": (TV, "correspondence Go vs extracted Coq model + outcome oracle",
-         "Outcome class (returns / panics / hangs) of IsSQLi compared with the Coq model, in which every index and slice is a checked primitive, over corpus, bounded-exhaustive, truncation, fragment, mutation and 64 KB-1 MB repetition streams; the totality theorem over the model is not finished, so this is claimed at the level of the tie.",
-         "model hand-written, tied by correspondence; no theorem yet for all inputs"),
+ "C01": (PROOF, "Coq theorem: is_sqli total (no panic, no stale slot, window <= 6 of 8 slots, linear fuel); + outcome correspondence",
+         "C01_is_sqli_total: for every byte string the model's IsSQLi returns Ok: every Go index / slice (lexers, assign, the folder's val[0]/val[1]/val[:len], the whitelist's look-ups into the raw input) is a checked primitive that is shown never to fail; the 8-slot token vector is modelled by the live tokens only, so no stale slot is read and the window never exceeds 6; the tokenizer loop, the fetch loops and the main loop of fold finish within fuels linear in |s| (potential argument over all 2- and 3-token rules). Built from per-lexer specifications of all 22 lexers, the window invariant, every folding rule, fingerprint / blacklist / whitelist / cascade, with vm_compute sweeps over the regenerated keyword map for the table side conditions. Tied to the code by the outcome-class correspondence (returns / panics / hangs) over corpus, bounded-exhaustive, truncation, fragment, mutation and 64 KB-1 MB repetition streams.",
+         "model hand-written, tied by correspondence"),
  "C02": (PROOF, "Coq theorem: is_xss total with constant call depth and linear fuel; + outcome correspondence (child processes)",
          "C02_is_xss_total: for every byte string the model's IsXSS returns Ok in all five contexts: no checked index/slice fails, every loop finishes within its fuel (tokens: 2|s|+4, state loops: |s|+2) and the call depth between HTML5 state functions never exceeds 4 (budget 8), for every input; proved by a per-state specification of all 22 state functions with a potential (|s|-pos)+credit(state) that every emitted token decreases, plus totality of the classifier, the character-reference decoder and the scheme matcher. Tied to the code by the outcome-class correspondence (Go side in watched child processes so a fatal stack overflow or a hang is attributed to one input) and the token-stream correspondence.",
          "model hand-written, tied by correspondence; Go runtime stack growth itself is observed, not modelled"),
@@ -37,13 +37,15 @@ CLAIMS = {
  "C10": (TV, "case-variant pairs on IsSQLi + correspondence", "For every input all-upper, all-lower and random case assignments outside the four exempt positions give the same (verdict, fingerprint).", "theorem pending"),
  "C11": (TV, "case / NUL-in-name variant pairs + correspondence", "Case variants (inputs without a case-variant of [CDATA[) leave IsXSS unchanged; a NUL inserted strictly inside a tag-name-open or attribute-name token leaves that context's verdict unchanged.", "theorem pending"),
  "C12": (TV, "cascade recomputed from per-context accessor on fresh states + correspondence", "IsSQLi compared with the gated cascade recomputed from per-context results on fresh states; quote-context == quote-prefixed as-is reading.", "theorem pending"),
- "C13": (PROOF, "Coq theorem (a) + embed / prefix oracles",
-         "(a) IsXSS = OR of the five context verdicts is proved for the model (C13a_or_of_contexts). (b) attribute context = embedding in a harmless tag and (c) '<'-free prefixes are irrelevant are checked on the implementation (4 embeds, 3 prefixes per input) and are not yet theorems.",
-         "(b),(c) tested only"),
+ "C13": (PROOF, "Coq theorems: IsXSS = OR of contexts; attribute context = embedding in a harmless tag; '<'-free prefixes irrelevant; + oracles on the implementation",
+         "All three clauses are theorems about the model for all inputs: (a) is_xss = OR of the five context verdicts; (b) C13b_embed: the verdict of context 1/2/3/4 on s equals the data-state verdict on `<a ` ++ s, `<a b='` ++ s, `<a b=\"` ++ s, `<a b=\x60` ++ s (shift simulation of the tokenizer: a state over pre ++ s at offset >= |pre| and its twin over s take related steps; the two one-byte-back emissions and the offset-0 tests are handled by a position side condition that is shown to be self-maintaining); (c) C13c_prefix: prepending any '<'-free text does not change the data-state verdict. Tied to the code by per-context verdict correspondence and the same embeds / prefixes evaluated on the implementation.",
+         "model hand-written, tied by correspondence"),
  "C14": (PROOF, "Coq theorem: Benign s -> is_sqli s = Ok (false, []) for all s; family computed from the regenerated table; + sampling on IsSQLi",
          "C14_benign_never_sqli: every input that is a single-space join of unsigned integers and identifiers [A-Za-z_][A-Za-z0-9_]* whose upper case is neither a non-fingerprint key of the keyword table nor a space-separated component of one (a boolean computed from the table regenerated from the source) is reported (false, \"\") by the model: exact lexing lemma (each item is one token n or 1), no folding rule fires on an {n,1} stream and merge finds no pair, no {n,1} string of length 1-5 is blacklisted (sweep), only the first pass runs. No length bound on items or input. The harness samples the same family (plus the e-mail / decimal / sentence shapes of the second clause, which are tests) on IsSQLi and compares with the model.",
          "second clause (e-mail, decimal, sentence shapes) tested only; model hand-written, tied by correspondence"),
- "C15": (TV, "exhaustive short strings without '<' '=' + correspondence", "All strings to depth 3 (thorough 4) over the HTML alphabet minus the two bytes and the html streams with the two bytes removed.", "theorem pending"),
+ "C15": (PROOF, "Coq theorem: no '<' and no '=' in s -> is_xss s = Ok false, all contexts; + exhaustive short strings on IsXSS",
+         "C15_no_lt_no_eq_not_xss: for every byte string without '<' and '=' the model answers false in each of the five contexts: the reachable tokenizer states stay inside {data, eof, attribute-side states}, the emitted token types inside {text, attribute name, tag close, self close} plus one attribute value as the first token of a quoted context, judged with attribute type none; classify never fires on those. Tied to the code by exhaustive short strings (depth 3, thorough 4) over the HTML alphabet minus the two bytes and the html streams with the two bytes removed.",
+         "model hand-written, tied by correspondence"),
  "C16": (PROOF, "Coq theorem over the tokenizer model (all 22 lexers) + token record oracle + correspondence",
          "C16_tokens_faithful_ordered_progress: for every byte string and every flag value the model's scan returns (no panic, no fuel exhaustion), the records tile the input from 0, every step consumes at least one byte, each token lies inside its step, its value is exactly the input slice at its offset (length <= 31), its class is a documented class character, and the scan ends at |input|; proved by induction over the tokenizer loop from a per-lexer specification of all 22 lexers plus parseStringCore, with byte sweeps over the regenerated dispatch table and keyword map. The model is tied to the code by the full-width token-record correspondence (six modes) and the same clauses are evaluated directly on the implementation's records.",
          "model hand-written, tied by correspondence"),
